@@ -3066,6 +3066,17 @@ func ruleModeAfterInit(c *Check, p *Program, rule string) {
 				hasInit = true
 			}
 		})
+		// mode tests in the helpers the method was split into count for the floor: they run where they are called
+		for _, g := range deepFuncs(fn, 2)[1:] {
+			allInstrs(g, func(in ssa.Instruction) {
+				if call, ok := in.(*ssa.Call); ok && calleeIs(call, pkgRoot, "Reader.isNotConcurrent") {
+					n++
+				}
+				if ld, ok := in.(*ssa.UnOp); ok && ld.Op == token.MUL && lastField(ld.X) == "Reader.num" {
+					n++
+				}
+			})
+		}
 		if !hasInit {
 			continue
 		}
